@@ -167,7 +167,8 @@ def run_task(task):
             outcomes.add(('es', mag, off, ordering, n, alpha))
         elif kind == 'explainer':
             n_checked, outcomes = explainer_case(task)
-    except Violation as v:
+    except Exception as e:
+        v = e if isinstance(e, Violation) else choice.library_exception(e, f'in task {task[:3]}')
         viol.append((v.key, v.what))
     return dict(task=[str(x) for x in task], n=max(1, n_checked), outcomes=outcomes, violations=viol)
 
